@@ -18,7 +18,7 @@ import time
 
 import mdgen
 import rendertie
-from common import Ctx
+from common import Ctx, run_driver
 from leanbuild import lean_obligations
 
 SOUP = list("*_`~[]()<>!#-+=|\\:\"'{}%&;.,/ \n\t") + ["\r\n", "\r", "\x0b", "\x0c", "\x1c", "\x85", " ", " ", "é", "中", "\U0001F600", "\x01", "\x7f",
@@ -273,13 +273,68 @@ def pumps(ctx: Ctx, sizes, top_limit: float, max_exp: float) -> None:
     ctx.extra["pump_growth"] = growth
 
 
+PH_ATOMS = ["`a`", "`b c`", "``x`y``", "[l](u)", "[a b][r]", "{% t %}", "{% if x %}{% /if %}", "{{ v }}", "{# c #}", "<!-- c -->", "<b>", "</b>",
+            "<a href=\"u\">", "`AC0`", "[AC1](AC2)", "`\x00`", "`\x00AC0\x00`"]
+PH_TEXTS = ["", " ", "word", " and ", "AC0", "AC1", "AC12", "AC", "0", "7\x00", "AC01", "ac0", "AC0 ", ",", "\n", "AC٣", "x\x00AC0\x00y", "\x00", "\x00AC",
+            "\x00AC0", "AC0\x00", "\x00AC99\x00", "\x00AC00\x00", "\x00AC1x\x00", "é", "AC2`"]
+
+
+def tie_placeholder(ctx: Ctx, n: int) -> None:
+    """model of the placeholder scheme (extract ∘ restore) = _extract_atomic_constructs / _restore_atomic_constructs, on texts built
+    from constructs and fragments that look like pieces of placeholders (AC<i>, digits, NUL); the segmentation the model is given is
+    the real regex's.  The NO_LEAK oracle runs on the NUL-free ones."""
+    from flowmark.linewrapping.atomic_patterns import ATOMIC_CONSTRUCT_PATTERN
+    from flowmark.linewrapping.text_wrapping import _extract_atomic_constructs, _restore_atomic_constructs, get_html_md_word_splitter
+    from common import enc, enc_list, dec
+    rng = ctx.rng
+    texts = ["`a` `b`AC0`c`", "x `a`AC1`b` {% t %}{% /t %}<b>AC0</b>", "`a`AC0`b`", "{{ a }}AC1{{ b }}AC0{{ c }}", "`a``b`"]
+    for _ in range(n):
+        k = rng.choice([1, 2, 3, 5, 8, 14])
+        texts.append("".join(rng.choice(PH_ATOMS) if rng.random() < 0.5 else rng.choice(PH_TEXTS) for _ in range(k)))
+    lines, real = [], []
+    for t in texts:
+        pieces, kinds, pos = [], [], 0
+        for m in ATOMIC_CONSTRUCT_PATTERN.finditer(t):
+            if m.start() > pos:
+                pieces.append(t[pos:m.start()]); kinds.append("t")
+            pieces.append(m.group(0)); kinds.append("a")
+            pos = m.end()
+        if pos < len(t):
+            pieces.append(t[pos:]); kinds.append("t")
+        cmap, twp = _extract_atomic_constructs(t)
+        real.append((twp, _restore_atomic_constructs([twp], cmap)[0]))
+        lines.append(f"placeholder\t{''.join(kinds)}\t{enc_list(pieces)}")
+    outs = run_driver(lines)
+    bad = 0
+    splitter = get_html_md_word_splitter()
+    for t, (twp, restored), ans in zip(texts, real, outs):
+        ctx.count(["placeholder", t], nontrivial="\x00" in twp, sample=False)
+        ctx.bump("placeholder" + (":with-NUL-in-input" if "\x00" in t else ""))
+        try:
+            a, b = ans.split("/")
+            got = (dec(a), dec(b))
+        except Exception:
+            got = ans
+        if got != (twp, restored):
+            bad += 1
+            ctx.tie_broken("placeholder", {"text": t}, got, [twp, restored])
+        if "\x00" not in t:
+            words = splitter(t)
+            if restored != t or any("\x00" in w for w in words):
+                ctx.fail("NO_PLACEHOLDER: restoring the placeholders does not give the text back (NUL-free input)", {"text": t},
+                         {"restored": restored, "words": words})
+    ctx.obligation(f"tie placeholder: Lean model of the placeholder scheme (extractText, roundTrip) = _extract_atomic_constructs / "
+                   f"_restore_atomic_constructs on {len(texts)} texts of constructs and placeholder-like fragments (AC<i>, digits, NUL)",
+                   "correspondence", bad == 0, f"{bad} disagreement(s)")
+
+
 def replay_findings(ctx: Ctx) -> None:
     from flowmark import reformat_text
     for fid, e in ctx.kf.items():
         t = (e.get("input") or {}).get("text")
         if t is not None:
             out, secs, err = call(lambda: reformat_text(t), 5)
-            ctx.known_replay(fid, err is not None)
+            ctx.known_replay(fid, err is not None or ("\x00" in (out or "") and "\x00" not in t))
         fam = (e.get("input") or {}).get("family")
         if fam:
             i = e["input"]
@@ -293,6 +348,7 @@ def run(ctx: Ctx) -> None:
     replay_findings(ctx)
     if driver_ok:
         ctx.guard("tie render", rendertie.tie_render, ctx.scale(150, 2000))
+        ctx.guard("tie placeholder", tie_placeholder, ctx.scale(3000, 60000))
     monitor(ctx, ctx.scale(2500, 100000), ctx.scale(250, 5000), limit=ctx.scale(5, 10))
     code_in_containers(ctx, ctx.scale(40, 216))
     block_growth(ctx)
